@@ -256,6 +256,17 @@ func VP_C01_step() {
 		}
 		vpAssert(len(tr.out) == 1, "refusal-is-answered")
 	}
+	// ---- C16: specific status codes ----
+	if len(tr.out) == 1 && len(tr.out[0]) >= 14 && !ok0 {
+		st := vpStatusOf(tr.out[0])
+		vpAssert(st != 0 || vpLE16(tr.out[0], 0) == 0x11, "non-success-response-has-nonzero-status")
+		if vpLE16(tr.out[0], 0) == 2 && vpStatusOf(tr.out[0]) != 0 {
+			vpAssert(vpImplies(pre == 0, st == 0x800759E9), "capability-mismatch-status")
+		}
+	}
+	if len(vpDialLog) == 1 && len(vpDialConns) == 0 {
+		vpAssert(!ok0 && len(tr.out) == 1 && post == pre, "unreachable-host-is-an-error")
+	}
 	// ---- out-of-order / unknown ----
 	known := vpOr(vpOr(vpOr(pt == 1, pt == 4), vpOr(pt == 6, pt == 8)), vpOr(vpOr(pt == 0xA, pt == 0xD), pt == 0x10))
 	expectedNow := vpOr(vpOr(vpOr(vpAnd(pre == 0, pt == 1), vpAnd(pre == 1, pt == 4)), vpOr(vpAnd(pre == 2, pt == 6), vpAnd(pre == 3, pt == 8))),
